@@ -143,3 +143,53 @@ pub fn from_quill<const N: usize, X>(q: &Mappings<N, X>) -> Result<MapSet> {
     }
     Ok(m)
 }
+
+// ------------------------------------------------------------------------------------------------
+// diffs
+
+use crate::refdiff::*;
+use quill::tree::mappings_diff::{Action, MappingsDiff};
+
+fn act_of<T: AsRef<java_string::JavaStr>>(a: &Action<T>) -> Result<Act> {
+    Ok(match a {
+        Action::None => Act::None,
+        Action::Add(b) => Act::Add(s_of(b)?),
+        Action::Remove(a) => Act::Remove(s_of(a)?),
+        Action::Edit(a, b) => Act::Edit(s_of(a)?, s_of(b)?),
+    })
+}
+fn act_doc(a: &Action<JavadocMapping>) -> Act {
+    match a {
+        Action::None => Act::None,
+        Action::Add(b) => Act::Add(b.0.clone()),
+        Action::Remove(a) => Act::Remove(a.0.clone()),
+        Action::Edit(a, b) => Act::Edit(a.0.clone(), b.0.clone()),
+    }
+}
+
+/// Projects quill's diff tree into the reference model. A namespace action or a mapping-level comment action
+/// cannot be expressed by the model and is reported as an error.
+pub fn from_quill_diff(q: &MappingsDiff) -> Result<DiffSet> {
+    if q.info != Action::None {
+        return Err(anyhow!("diff carries a namespace action {:?}", q.info));
+    }
+    if q.javadoc != Action::None {
+        return Err(anyhow!("diff carries a mapping-level comment action"));
+    }
+    let mut d = DiffSet::default();
+    for (k, c) in &q.classes {
+        let mut cd = ClassD { act: act_of(&c.info)?, doc: act_doc(&c.javadoc), ..Default::default() };
+        for (fk, f) in &c.fields {
+            cd.fields.insert(mkey(&s_of(&fk.name)?, &s_of(&fk.desc)?), MemberD { act: act_of(&f.info)?, doc: act_doc(&f.javadoc), params: Default::default() });
+        }
+        for (mk, m) in &c.methods {
+            let mut md = MemberD { act: act_of(&m.info)?, doc: act_doc(&m.javadoc), params: Default::default() };
+            for (pk, p) in &m.parameters {
+                md.params.insert(pk.index, ParamD { act: act_of(&p.info)?, doc: act_doc(&p.javadoc) });
+            }
+            cd.methods.insert(mkey(&s_of(&mk.name)?, &s_of(&mk.desc)?), md);
+        }
+        d.classes.insert(s_of(k)?, cd);
+    }
+    Ok(d)
+}
